@@ -791,7 +791,10 @@ func (p *parser) restoreState(state storeDict) {
 
 // get the slice of bytes from the savepoint start to the current position.
 func (p *parser) sliceFrom(start savepoint) []byte {
-	return p.data[start.position.offset:p.pt.position.offset]
+	// the capacity of the slice ends with the match, so that appending to
+	// a matched text or value never writes into the rest of the input
+	end := p.pt.position.offset
+	return p.data[start.position.offset:end:end]
 }
 
 // ==template== {{ if or .LeftRecursion (not .Optimize) }}
